@@ -119,11 +119,40 @@ theorem parseDigits_stuck (k : Comp) (b b' : Bytes) (ds : List Nat) (x : Nat) (h
 /-- the integer phase consumes nothing on a non-digit -/
 theorem integerPhase_stuck (b : Bytes) (ip : IntPart) (x : Nat) (hx : b.slc[b.index]? = some x)
     (hnd : charToDigit x c.mantissaRadix = none) (hrad : c.feats.powerOfTwo = false → c.mantissaRadix ≤ 10)
-    (hpre : c.basePrefix = 0) (h : integerPhase c b = .ok ip) :
+    (hr1 : 1 ≤ c.mantissaRadix) (h : integerPhase c b = .ok ip) :
     ip.start = b ∧ ip.byte = b ∧ ip.nDigits = 0 := by
+  have hx48 : x ≠ 48 := by
+    intro h48
+    rw [h48] at hnd
+    have : charToDigit 48 c.mantissaRadix = some 0 := by
+      by_cases h10 : c.mantissaRadix ≤ 10
+      · simp [charToDigit, charToValidDigit, h10]; omega
+      · simp [charToDigit, charToValidDigit, h10]; omega
+    rw [this] at hnd; cases hnd
+  have hpp : ∀ r, prefixPhase c b = .ok r → r = (false, b) := by
+    intro r hr
+    unfold prefixPhase at hr
+    split at hr
+    · simp only [bind, Except.bind, readIfValueCased] at hr
+      cases hp : peek c .integer b with
+      | error e => rw [hp] at hr; cases hr
+      | ok pr =>
+        obtain ⟨v, b1⟩ := pr
+        obtain ⟨rfl, rfl⟩ := peek_contig_ok hb .integer b b1 v hp
+        rw [hp] at hr
+        have hne : (b1.slc[b1.index]? == some 48) = false := by rw [hx]; simpa using hx48
+        simp only [hne, Bool.false_eq_true, if_false, pure, Except.pure] at hr
+        cases hr; rfl
+    · cases hr; rfl
   unfold integerPhase at h
-  simp only [prefixPhase, hpre, ne_eq, not_true_eq_false, decide_false, Bool.and_false, Bool.false_eq_true, if_false,
-    bind, Except.bind, pure, Except.pure] at h
+  simp only [bind, Except.bind, pure, Except.pure] at h
+  cases hpp0 : prefixPhase c b with
+  | error e => rw [hpp0] at h; cases h
+  | ok r0 =>
+  have := hpp r0 hpp0
+  subst this
+  rw [hpp0] at h
+  simp only [Bool.not_false, Bool.and_true] at h
   cases h8 : parse8Digits c .integer b 0 with
   | error e => rw [h8] at h; cases h
   | ok p8 =>
@@ -152,7 +181,7 @@ theorem integerPhase_stuck (b : Bytes) (ip : IntPart) (x : Nat) (hx : b.slc[b.in
 decimal point (no separator byte, no base prefix, mantissa digits required; any feature set, debug or release) -/
 theorem parseNumber_not_ok (p : Bool) (o : POpts) (b : Bytes) (neg fv : Bool) (x : Nat)
     (hx : b.slc[b.index]? = some x) (hnd : charToDigit x c.mantissaRadix = none) (hdp : x ≠ o.dp)
-    (hrad : c.feats.powerOfTwo = false → c.mantissaRadix ≤ 10) (hpre : c.basePrefix = 0)
+    (hrad : c.feats.powerOfTwo = false → c.mantissaRadix ≤ 10) (hr1 : 1 ≤ c.mantissaRadix)
     (hm : c.requiredMantissaDigits = true) (r : Number × Nat) :
     parseNumber c p o b neg fv ≠ .ok r := by
   intro h
@@ -165,7 +194,7 @@ theorem parseNumber_not_ok (p : Bool) (o : POpts) (b : Bytes) (neg fv : Bool) (x
   cases hi : integerPhase c b with
   | error e => rw [hi] at h; cases h
   | ok ip =>
-    obtain ⟨s1, s2, s3⟩ := integerPhase_stuck hb b ip x hx hnd hrad hpre hi
+    obtain ⟨s1, s2, s3⟩ := integerPhase_stuck hb b ip x hx hnd hrad hr1 hi
     rw [hi] at h
     simp only at h
     have hfc : ip.byte.firstIsCased o.dp = false := by
@@ -310,18 +339,18 @@ def SpecialHeadsOK (c : Cfg) (o : POpts) : Prop :=
 
 /-- if the special-value parser matches at the cursor, `parse_number` fails there -/
 theorem parseNumber_not_ok_of_special (p : Bool) (o : POpts) (b : Bytes) (neg fv : Bool) (sp : Special) (n : Nat)
-    (hh : SpecialHeadsOK c o) (hrad : c.feats.powerOfTwo = false → c.mantissaRadix ≤ 10) (hpre : c.basePrefix = 0)
+    (hh : SpecialHeadsOK c o) (hrad : c.feats.powerOfTwo = false → c.mantissaRadix ≤ 10) (hr1 : 1 ≤ c.mantissaRadix)
     (hm : c.requiredMantissaDigits = true) (hs : parsePositiveSpecial c o b = .ok (some (sp, n)))
     (r : Number × Nat) : parseNumber c p o b neg fv ≠ .ok r := by
   obtain ⟨str, hstr, _, heq, hn0⟩ := parsePositiveSpecial_some o b sp n hs
   obtain ⟨y, ys, rfl, hy⟩ := hh str hstr
   obtain ⟨x, hx, hxor⟩ := isSpecialEq_head hb b y ys n heq hn0
   obtain ⟨hnd, hdp⟩ := hy x hxor
-  exact parseNumber_not_ok hb p o b neg fv x hx hnd hdp hrad hpre hm r
+  exact parseNumber_not_ok hb p o b neg fv x hx hnd hdp hrad hr1 hm r
 
 /-- the syntactic sufficient condition for `NoShadow` -/
 theorem noShadow_of_heads (o : POpts) (s : List Nat) (fv : Bool)
-    (hh : SpecialHeadsOK c o) (hrad : c.feats.powerOfTwo = false → c.mantissaRadix ≤ 10) (hpre : c.basePrefix = 0)
+    (hh : SpecialHeadsOK c o) (hrad : c.feats.powerOfTwo = false → c.mantissaRadix ≤ 10) (hr1 : 1 ≤ c.mantissaRadix)
     (hm : c.requiredMantissaDigits = true) : NoShadow c o s fv := by
   intro neg b _ hsh
   obtain ⟨n, count, sp, h1, _, h3⟩ := hsh
@@ -333,7 +362,7 @@ theorem noShadow_of_heads (o : POpts) (s : List Nat) (fv : Bool)
     | none => rw [hps] at h3; cases h3
     | some pr =>
       obtain ⟨sp2, m⟩ := pr
-      exact parseNumber_not_ok_of_special hb true o b neg fv sp2 m hh hrad hpre hm hps _ h1
+      exact parseNumber_not_ok_of_special hb true o b neg fv sp2 m hh hrad hr1 hm hps _ h1
 
 end
 end LexVerif.Proof.C11
